@@ -4,6 +4,7 @@
    the extracted inductive types; no Extract Constant / Extract Inductive of ours. *)
 From Coq Require Import ExtrOcamlBasic ExtrOcamlString.
 From TM Require Import Base Mapper Wire WireSpec.
+From TMGen Require KeyTable.
 
 (* the model *)
 Definition x_encode_batch := encode_batch.
@@ -21,6 +22,8 @@ Definition x_unmatched_idents := unmatched_idents.
 Definition x_matched_count := matched_count.
 Definition x_table_ok := codes_fit_u16 && codes_match_kernel && codes_distinct.
 Definition x_key_codes := key_codes.
+Definition x_key_table := TMGen.KeyTable.key_table.
+Definition x_kernel_code_of_ident (id : String.string) := kernel_code (kernel_name id).
 
 Extraction "model.ml" x_encode_batch x_decode_run x_check_write x_check_roundtrip x_check_reader
-  x_mk_raw x_raw_stream x_raw_events x_raw_wf x_unmatched_idents x_matched_count x_table_ok x_key_codes.
+  x_mk_raw x_raw_stream x_raw_events x_raw_wf x_unmatched_idents x_matched_count x_table_ok x_key_codes x_key_table x_kernel_code_of_ident.
